@@ -76,7 +76,7 @@ pub(crate) struct SCfg {
 
 #[derive(Clone, Copy)]
 pub(crate) struct STc { pub now: T, pub ttl: T, pub tti: T, pub va: T, pub la: [T; MAXN], pub lm: [T; MAXN] }
-pub(crate) const STCS: [STc; 9] = [
+pub(crate) const STCS: [STc; 10] = [
     STc { now: (0, 0), ttl: (0, 0), tti: (0, 0), va: (0, 0), la: [(0, 0); MAXN], lm: [(0, 0); MAXN] },
     // 1: everything live; watermark older than every entry
     STc { now: (100, 0), ttl: (50, 5), tti: (30, 0), va: (10, 0), la: [(80, 0), (85, 0), (90, 0), (0, 0)], lm: [(60, 0), (70, 0), (80, 0), (0, 0)] },
@@ -94,6 +94,9 @@ pub(crate) const STCS: [STc; 9] = [
     STc { now: (100, 0), ttl: (50, 5), tti: (30, 0), va: (100, 0), la: [(98, 0), (99, 0), (99, 5), (0, 0)], lm: [(98, 0), (99, 0), (99, 5), (0, 0)] },
     // 8: class 2 seen 1 ns EARLIER (key 0 one ns before its ttl deadline): used as the clock reading at which an iterator is created
     STc { now: (99, 999_999_999), ttl: (50, 5), tti: (30, 0), va: (10, 0), la: [(80, 0), (85, 0), (90, 0), (0, 0)], lm: [(49, 999_999_995), (70, 0), (80, 0), (0, 0)] },
+    // 9: key 0 WRITTEN before invalidate_all but last READ at the very reading of invalidate_all (a hit recorded at that
+    //    reading, before the call, and applied by a later maintenance run): lm0 < va == la0. Hidden by its write time alone.
+    STc { now: (100, 0), ttl: (50, 5), tti: (30, 0), va: (85, 0), la: [(85, 0), (90, 0), (95, 0), (0, 0)], lm: [(84, 0), (86, 0), (87, 0), (0, 0)] },
 ];
 
 /// ghost of the abstract state
@@ -500,6 +503,20 @@ fn s_insert(cfg: &SCfg, j: usize, cls: u8) {
         }
         WriteOp::Remove(_) => chk!(false, "C01: insert produced a Remove op"),
     }
+    // the written key is observable at once (whatever hid its previous version: watermark, deadlines), through
+    // contains_key and through the real iterator, with the new value
+    if !le(t_add(e.now, e.ttl.unwrap_or((1, 0))), e.now) && !le(t_add(e.now, e.tti.unwrap_or((1, 0))), e.now) {
+        chk!(st.b.contains_key(&key), "C07,C01,C03,C16: a key written just now (after invalidate_all / after its old version expired) is not observable");
+        let mut it = st.b.iter();
+        let mut seen = 0u32;
+        let mut i = 0;
+        while i < MAXN {
+            if let Some(r) = it.next() { if *r.key() == key { seen += 1; chk!(*r.value() == nv, "C16,C01: iteration yields a stale value for a key written just now"); } }
+            i += 1;
+        }
+        drop(it);
+        chk!(seen == 1, "C16,C07,C01,C03: iteration must yield a key written just now exactly once");
+    }
     // model: value replaced at once; shared info: dirty, timestamps = now, weight = new
     e.present[j] = true;
     e.v[j] = nv;
@@ -784,6 +801,9 @@ sh!(s_get0_ttl_deadline, s_lookup(&sc(2, Some(3), false, W1, true, false, false,
 sh!(s_get0_tti_deadline, s_lookup(&sc(2, Some(3), false, W1, true, true, false, 3), 0, 1));
 sh!(s_get1_same_reading_as_watermark, s_lookup(&sc(2, Some(3), false, W1, false, false, true, 5), 1, 1));
 sh!(s_get0_before_watermark, s_lookup(&sc(2, Some(3), false, W1, false, true, true, 5), 0, 1));
+sh!(s_contains0_written_before_watermark_read_on_it, s_lookup(&sc(2, Some(3), false, W1, false, false, true, 9), 0, 0));
+sh!(s_get0_written_before_watermark_read_on_it, s_lookup(&sc(2, Some(3), false, W1, false, true, true, 9), 0, 1));
+sh!(s_iterfilter0_written_before_watermark_read_on_it, s_lookup(&sc(2, Some(3), false, W1, true, false, true, 9), 0, 2));
 sh!(s_get_absent, s_lookup(&sc(1, None, false, W1, false, false, false, 1), 1, 1));
 sh!(s_iterfilter0_before_watermark_no_expiry, s_lookup(&sc(2, Some(3), false, W1, false, false, true, 4), 0, 2));
 sh!(s_iterfilter0_ttl_deadline, s_lookup(&sc(2, Some(3), false, W1, true, true, false, 2), 0, 2));
@@ -791,6 +811,7 @@ sh!(s_iterfilter1_live, s_lookup(&sc(2, Some(3), false, W1, true, true, true, 1)
 // map step of insert
 sh!(s_insert_new, s_insert(&sc(1, Some(3), true, WT_A, true, true, false, 1), 1, 1));
 sh!(s_insert_update0, s_insert(&sc(2, Some(9), true, WT_A, true, true, true, 1), 0, 1));
+sh!(s_insert_update0_below_watermark_no_expiry, s_insert(&sc(2, Some(9), true, WT_A, false, false, true, 4), 0, 1));
 sh!(s_insert_update1_no_expiry, s_insert(&sc(2, Some(9), true, WT_A, false, false, false, 1), 1, 1));
 sh!(s_invalidate_all_2, s_invalidate_all(&sc(2, Some(3), false, W1, true, false, false, 5)));
 sh!(s_invalidate_all_again, s_invalidate_all(&sc(2, Some(3), false, W1, false, false, true, 4)));
